@@ -314,8 +314,12 @@ class ServePatch(RequestHandlerBase):
 
         options.update(patch=True, segmentTimeline=True)
         options.remove_unused_parameters('live')
-        original_publish_time = datetime.datetime.fromtimestamp(
-            publish, tz=UTC())
+        try:
+            original_publish_time = datetime.datetime.fromtimestamp(
+                publish, tz=UTC())
+        except (OverflowError, ValueError, OSError):
+            # not a time that a manifest can have been published at
+            return flask.make_response('Invalid publish time', 404)
         dash = ManifestContext(
             manifest=mft, options=options, stream=current_stream,
             multi_period=None)
